@@ -701,7 +701,7 @@ func (ex *Exec) strlen(s *Term) *Term {
 // sharedAccess is a pre-emption point (only in pre-emptive mode) before an
 // access through a pointer that may be shared between tasks.
 func (ex *Exec) sharedAccess(fr *frame, addr ssa.Value) {
-	if !ex.cfg.Preemptive || ex.cur == nil {
+	if !ex.cfg.Preemptive || ex.cfg.PreemptSyncOnly || ex.cur == nil {
 		return
 	}
 	switch a := addr.(type) {
